@@ -162,6 +162,48 @@ static std::string run_case(const Args& a) {
     bool ok = cctz::FixedOffsetFromName(unhex(a[1]), &off);
     return ok ? "1 " + std::to_string(static_cast<ll>(off.count())) : "0";
   }
+  // ---------------- POSIX TZ parser (C16) ----------------
+  if (op == "posix") {
+    const std::string spec = unhex(a[1]);
+    cctz::PosixTimeZone r[2];
+    bool ok[2];
+    for (int k = 0; k < 2; ++k) {
+      const int pat = k ? 0x7f : 0x00;
+      std::memset(&r[k].dst_start, pat, sizeof r[k].dst_start);
+      std::memset(&r[k].dst_end, pat, sizeof r[k].dst_end);
+      std::memset(&r[k].std_offset, pat, sizeof r[k].std_offset);
+      std::memset(&r[k].dst_offset, pat, sizeof r[k].dst_offset);
+      ok[k] = cctz::ParsePosixSpec(spec, &r[k]);
+    }
+    if (ok[0] != ok[1]) return "?nondeterministic-accept";
+    if (!ok[0]) return "0";
+    std::ostringstream os;
+    auto num = [&](ll x, ll y) { if (x == y) os << ' ' << x; else os << " U"; };
+    auto tr = [&](const cctz::PosixTransition& x, const cctz::PosixTransition& y) {
+      int fx, fy;  // read the enum through memcpy: a never-written fmt is not a valid enumerator
+      std::memcpy(&fx, &x.date.fmt, sizeof fx);
+      std::memcpy(&fy, &y.date.fmt, sizeof fy);
+      if (fx != fy) {
+        os << " U";
+      } else if (fx == cctz::PosixTransition::J) {
+        os << " J"; num(x.date.j.day, y.date.j.day);
+      } else if (fx == cctz::PosixTransition::N) {
+        os << " N"; num(x.date.n.day, y.date.n.day);
+      } else if (fx == cctz::PosixTransition::M) {
+        os << " M"; num(x.date.m.month, y.date.m.month); num(x.date.m.week, y.date.m.week);
+        num(x.date.m.weekday, y.date.m.weekday);
+      } else {
+        os << " ?fmt";
+      }
+      os << " /"; num(x.time.offset, y.time.offset);
+    };
+    if (r[0].std_abbr != r[1].std_abbr || r[0].dst_abbr != r[1].dst_abbr) return "?nondeterministic-abbr";
+    os << "1 " << hex(r[0].std_abbr); num(r[0].std_offset, r[1].std_offset);
+    os << ' ' << hex(r[0].dst_abbr); num(r[0].dst_offset, r[1].dst_offset);
+    os << " ;"; tr(r[0].dst_start, r[1].dst_start);
+    os << " ;"; tr(r[0].dst_end, r[1].dst_end);
+    return os.str();
+  }
 #include "harness_zone.inc"
   return "?unknown-op";
 }
